@@ -335,6 +335,35 @@ theorem grammar_total (hdr : Str) : ∃ items : List Item, (∀ it ∈ items, it
   obtain ⟨items, hwf, hr⟩ := pieces_are_items (splitOn ',' hdr) (splitOn_parts_no_sep ',' hdr)
   exact ⟨items, hwf, by unfold render; rw [hr, joinComma_splitOn]⟩
 
+/-! ### `urlparse(target).query` on a request target without a raw '#' -/
+
+theorem takeWhile_ne_of_not_mem (c : Char) (s : Str) (h : c ∉ s) : s.takeWhile (· ≠ c) = s := by
+  induction s with
+  | nil => rfl
+  | cons x xs ih =>
+    have hx : x ≠ c := by intro e; exact h (by simp [e])
+    have hxs : c ∉ xs := by intro e; exact h (by simp [e])
+    simpa [hx] using ih hxs
+
+theorem dropWhile_ne_append (c : Char) (a b : Str) (h : c ∉ a) : (a ++ c :: b).dropWhile (· ≠ c) = c :: b := by
+  induction a with
+  | nil => simp
+  | cons x xs ih =>
+    have hx : x ≠ c := by intro e; exact h (by simp [e])
+    have hxs : c ∉ xs := by intro e; exact h (by simp [e])
+    simpa [hx] using ih hxs
+
+/-- `urlparse(path + '?' + q).query == q` PROVIDED the target has no raw '#' (and `path` is the part before the first
+'?').  With a raw '#' it is false: `urlparse` cuts the fragment off, wsgiref does not. -/
+theorem urlQuery_target (path q : Str) (hp : '?' ∉ path) (hph : '#' ∉ path) (hq : '#' ∉ q) :
+    urlQuery (path ++ '?' :: q) = q := by
+  unfold urlQuery
+  have hall : '#' ∉ path ++ '?' :: q := by
+    simp only [List.mem_append, List.mem_cons, not_or]
+    exact ⟨hph, by decide, hq⟩
+  rw [takeWhile_ne_of_not_mem _ _ hall, dropWhile_ne_append _ _ _ hp]
+  rfl
+
 /-! ### lower -/
 
 theorem lowerChar_of_not_special (c : Char) (h1 : c ≠ Char.ofNat 0x130) (h2 : c ≠ Char.ofNat 0x212A) :
